@@ -16,7 +16,9 @@ mod c15;
 mod c10;
 mod c16;
 mod c17;
+mod c18;
 mod c18a; // C18: percent-encoding + Base64 half
+mod c18b; // C18: dates + SHA-1 half
 mod c02;
 mod c05;
 mod c07;
@@ -41,7 +43,7 @@ fn exec(prop: &str, f: &[String]) -> Option<String> {
         "C02" => c02::exec(f),
         "C05" => c05::exec(f),
         "C07" => c07::exec(f),
-        "C18" => c18a::exec(f), // C18: percent-encoding + Base64 half
+        "C18" => c18::exec(f),
         "C17" => c17::exec(f),
         "C16" => c16::exec(f),
         "C09" => c09::exec(f),
@@ -107,7 +109,7 @@ fn main() {
         "C02" => c02::gen(&mut out, thorough, seed),
         "C05" => c05::gen(&mut out, thorough, seed),
         "C07" => c07::gen(&mut out, thorough, seed),
-        "C18" => c18a::gen(&mut out, thorough, seed), // C18: percent-encoding + Base64 half
+        "C18" => c18::gen(&mut out, thorough, seed),
         "C17" => c17::gen(&mut out, thorough, seed),
         "C16" => c16::gen(&mut out, thorough, seed),
         "C09" => c09::gen(&mut out, thorough, seed),
